@@ -4,6 +4,7 @@
 pub mod outline;
 pub mod validate;
 pub mod sfnt;
+pub mod summary;
 
 use read_fonts::tables::glyf::Glyph as RfGlyph;
 use read_fonts::tables::variations::{DeltaSetIndexMap, ItemVariationStore};
